@@ -31,6 +31,10 @@ def cases(ctx, n):
             out.append(G.special_cell(ctx.rng))
         else:
             out.append(G.valid_cell(ctx.rng, oblique=ctx.rng.random() < 0.85))
+        if ctx.rng.random() < 0.15:
+            # any overall size: sub-Angstrom model lattices up to protein / virus cells of thousands of Angstrom (the metric relations are scale free)
+            k = 10 ** ctx.rng.uniform(-1.5, 2.7)
+            out[-1] = [x * k for x in out[-1][:3]] + list(out[-1][3:])
     return out
 
 
